@@ -123,7 +123,11 @@ def framing_lines():
           b"Transfer_Encoding: chunked", b"Transfer-Encoding\x0b: chunked", b"Content-Length\x00: 5",
           b"Content-Length : 5", b"Content_Length: 5", b"content-length: 5", b"TRANSFER-ENCODING: CHUNKED",
           b"Transfer-Encoding:chunked", b"Content-Length:5", b": x", b"X(y): z", b"Transfer-Encoding", b"\tchunked",
-          b" 5", b"Host: x", b"X: a\x00b", b"Transfer-Encoding\xa0: chunked", b"Content-Length\r: 5"]
+          b" 5", b"Host: x", b"X: a\x00b", b"Transfer-Encoding\xa0: chunked", b"Content-Length\r: 5",
+          # persistence tokens (a connection that must not carry a further request may be asked to stay open)
+          b"Connection: keep-alive", b"Connection: close",
+          # names the header map drops or refuses: the value grammar applies to them all the same
+          b"X_Pad: ok", b"X_Pad: a\x00b", b"X_Pad: a\rb", b"X_Pad: a\nTransfer-Encoding: chunked", b"X_Pad : v", b"Content_Length: 5\x00"]
     return L
 
 
